@@ -223,26 +223,30 @@ class IEG:
         pt = frame.body.blocks[site]["t"]
         if "p" in pt["dest"]:
             return None
-        return (('var', pt["dest"]["l"], 0, 0),)
+        # Poll::Ready(Either::Left(..))
+        return (('var', pt["dest"]["l"], (0, ((0, (0, ())),))),)
 
     def _var_switch(self, n):
-        """If the switch tests `discriminant(local)` of a tracked local (computed in this block), its value."""
+        """If the switch tests `discriminant(place)` of a place with a known shape (computed in this block), its value."""
         t = n.term
         op = t["discr"].get("move") or t["discr"].get("copy")
         if op is None or "p" in op:
             return None
-        known = {k: v[0] for k, v in self._known(n.tag).items()}
+        known = self._known(n.tag)
         src = None
         for st in n.stmts:
             if st["k"] == "assign" and "p" not in st["place"]:
                 if st["place"]["l"] == op["l"]:
                     rv = st["rv"]
                     src = rv["place"] if rv["k"] == "discr" else None
-                elif src is not None and "p" not in src and st["place"]["l"] == src["l"]:
+                elif src is not None and st["place"]["l"] == src["l"]:
                     src = None
-        if src is None or "p" in src:
+        if src is None:
             return None
-        return known.get(src["l"])
+        sh = self._shape_at(known, src)
+        if sh is None:
+            return None
+        return sh[0]
 
     def _continuation(self, frame, extra_tag=None):
         """Where control goes when `frame` returns."""
@@ -251,13 +255,14 @@ class IEG:
         return p, t["target"]
 
     # -- path-sensitive variant knowledge -------------------------------------------------------------
-    # A tag entry ('var', local, v, inner) says: along this path the plain local holds enum variant
-    # index v, and (if inner is not None) the value in field 0 of that variant holds variant `inner`.
-    # Knowledge is created by aggregate assignments, propagated by moves / payload extraction /
-    # `?` (Try::branch, from_residual), and consumed by `switch discriminant(local)`.
+    # A tag entry ('var', local, shape) records what is known, along this path, about the value held by
+    # a plain local. shape = (variant index or None, ((field index, shape), ...)). Knowledge is created
+    # by aggregate assignments, propagated by moves / field and payload extraction / `?` (Try::branch,
+    # from_residual), forgotten on any other write, `&mut` borrow or StorageDead, and consumed by
+    # `switch discriminant(place)`.
     @staticmethod
     def _known(tag):
-        return {x[1]: (x[2], x[3]) for x in (tag or ()) if x[0] == 'var'}
+        return {x[1]: x[2] for x in (tag or ()) if x[0] == 'var'}
 
     @staticmethod
     def _plain(op):
@@ -266,15 +271,42 @@ class IEG:
             return p["l"]
         return None
 
+    @staticmethod
+    def _shape_at(known, place):
+        """Shape of a place (local + projection chain of downcasts / fields), or None."""
+        sh = known.get(place["l"])
+        if sh is None:
+            return None
+        for el in place.get("p", []):
+            if "variant" in el:
+                if sh[0] != el["variant"]:
+                    return None
+            elif "f" in el:
+                nxt = None
+                for (i, sub) in sh[1]:
+                    if i == el["f"]:
+                        nxt = sub
+                if nxt is None:
+                    return None
+                sh = nxt
+            elif "deref" in el:
+                return None
+            else:
+                return None
+        return sh
+
     def _var_updates(self, n):
         known = self._known(n.tag)
         before = dict(known)
         for st in n.stmts:
+            if st["k"] == "dead":
+                known.pop(st["l"], None)
+                continue
             if st["k"] != "assign":
                 continue
             pl = st["place"]
             rv = st["rv"]
-            if rv["k"] == "ref" and rv.get("bk") == "mut" and "p" not in rv["place"]:
+            if rv["k"] == "ref" and rv.get("bk") == "mut":
                 known.pop(rv["place"]["l"], None)
             if "p" in pl:
                 if not any("deref" in e for e in pl["p"]):
@@ -282,24 +314,23 @@ class IEG:
                 continue
             l = pl["l"]
             newv = None
-            if rv["k"] == "agg" and rv.get("ak") == "adt" and self._is_enum(rv["adt"]):
-                inner = None
-                if rv["ops"]:
-                    y = self._plain(rv["ops"][0])
-                    if y is not None and y in known:
-                        inner = known[y][0]
-                newv = (rv["vi"], inner)
+            if rv["k"] == "agg" and rv.get("ak") in ("adt", "tuple"):
+                subs = []
+                for i, o in enumerate(rv["ops"]):
+                    src = o.get("move") or o.get("copy")
+                    if src is not None:
+                        sh = self._shape_at(known, src)
+                        if sh is not None:
+                            subs.append((i, sh))
+                if rv["ak"] == "adt":
+                    if self._is_enum(rv["adt"]):
+                        newv = (rv["vi"], tuple(subs))
+                elif subs:
+                    newv = (None, tuple(subs))
             elif rv["k"] == "use":
-                y = self._plain(rv["op"])
-                if y is not None:
-                    newv = known.get(y)
-                else:
-                    src = rv["op"].get("move") or rv["op"].get("copy")
-                    if src is not None and src["l"] in known and len(src.get("p", [])) == 2:
-                        a, b = src["p"]
-                        kv, ki = known[src["l"]]
-                        if "variant" in a and a["variant"] == kv and b.get("f") == 0 and ki is not None:
-                            newv = (ki, None)
+                src = rv["op"].get("move") or rv["op"].get("copy")
+                if src is not None:
+                    newv = self._shape_at(known, src)
             if newv is not None:
                 known[l] = newv
             else:
@@ -311,21 +342,22 @@ class IEG:
             newv = None
             if name.endswith("std::ops::FromResidual>::from_residual"):
                 if name.startswith("<std::result::Result"):
-                    newv = (1, None)
+                    newv = (1, ())
                 elif name.startswith("<std::option::Option"):
-                    newv = (0, None)
+                    newv = (0, ())
                 elif name.startswith("<std::task::Poll"):
-                    newv = (0, 1)
+                    newv = (0, ((0, (1, ())),))
             elif name.endswith("std::ops::Try>::branch") and len(t["args"]) == 1:
-                a = self._plain(t["args"][0])
-                if a is not None and a in known:
-                    v = known[a][0]
+                src = t["args"][0].get("move") or t["args"][0].get("copy")
+                sh = self._shape_at(known, src) if src is not None else None
+                if sh is not None and sh[0] is not None:
+                    v = None
                     if name.startswith("<std::result::Result"):
-                        newv = ({0: 0, 1: 1}.get(v), None)
+                        v = {0: 0, 1: 1}.get(sh[0])
                     elif name.startswith("<std::option::Option"):
-                        newv = ({0: 1, 1: 0}.get(v), None)
-                    if newv is not None and newv[0] is None:
-                        newv = None
+                        v = {0: 1, 1: 0}.get(sh[0])
+                    if v is not None:
+                        newv = (v, ())
             if newv is not None:
                 known[l] = newv
             else:
@@ -351,7 +383,7 @@ class IEG:
             if m.frame is not n.frame:
                 res.append((m, lab))
                 continue
-            tag = tuple(('var', l, v[0], v[1]) for l, v in sorted(known.items()))
+            tag = tuple(('var', l, v) for l, v in sorted(known.items()))
             res.append((self._node(m.frame, m.bb, tag or None), lab))
         return res
 
@@ -391,12 +423,14 @@ class IEG:
             d = pt["dest"]["l"] if "p" not in pt["dest"] else None
             ntag = None
             if d is not None:
+                inner = ((0, r0),) if r0 is not None else ()
                 if f.kind == 'await':
-                    ntag = (('var', d, 0, r0[0] if r0 else None),)
+                    ntag = (('var', d, (0, inner)),)
                 elif f.kind == 'select':
-                    ntag = (('var', d, 0, 1),)
-                elif f.kind in ('call', 'pollfn') and r0:
-                    ntag = (('var', d, r0[0], r0[1]),)
+                    # Poll::Ready(Either::Right((output, other future)))
+                    ntag = (('var', d, (0, ((0, (1, ((0, (None, inner)),))),))),)
+                elif f.kind in ('call', 'pollfn') and r0 is not None:
+                    ntag = (('var', d, r0),)
             return [(self._node(p, tgt, ntag), 'ret')]
         if k == "yield":
             out = [(self._node(f, t["target"], None), 'resume')]
